@@ -565,6 +565,9 @@ func writeReplay(e *Engine, run *PropRun, r *FnResult, o *Obligation) replayResu
 	if run.Replay != nil {
 		spec = run.Replay(o, r)
 	}
+	if spec == nil && o.Kind == "schema" {
+		spec = schemaReplay(o)
+	}
 	if spec == nil && o.Model != "" && r.frame != nil {
 		spec = genericReplay(e, r, o)
 	}
